@@ -17,3 +17,48 @@ mod validation;
 
 #[cfg(test)]
 pub mod test_utils;
+
+/// Verification hook (only with `--cfg cairo_verif`): a thread-local log of the parser's token
+/// plumbing operations (see the `verif_hook::log` calls in parser.rs). Off by default; nothing is
+/// recorded unless `start` was called on this thread.
+#[cfg(cairo_verif)]
+pub mod verif_hook {
+    use std::cell::RefCell;
+
+    use cairo_lang_syntax::node::green::GreenNodeDetails;
+    use cairo_lang_syntax::node::ids::GreenId;
+    use salsa::Database;
+
+    thread_local! {
+        static LOG: RefCell<Option<Vec<String>>> = const { RefCell::new(None) };
+    }
+    pub fn start() {
+        LOG.with(|l| *l.borrow_mut() = Some(vec![]));
+    }
+    pub fn finish() -> Option<Vec<String>> {
+        LOG.with(|l| l.borrow_mut().take())
+    }
+    pub fn log(f: impl FnOnce() -> String) {
+        LOG.with(|l| {
+            if let Some(v) = l.borrow_mut().as_mut() {
+                v.push(f());
+            }
+        });
+    }
+    /// FNV-1a of the Debug text: an opaque tag for a diagnostic kind.
+    pub fn tag(kind: &crate::diagnostic::ParserDiagnosticKind) -> u32 {
+        format!("{kind:?}").bytes().fold(0x811c9dc5u32, |h, b| (h ^ b as u32).wrapping_mul(0x01000193))
+    }
+    pub fn hex(s: &str) -> String {
+        if s.is_empty() { "-".into() } else { s.bytes().map(|b| format!("{b:02x}")).collect() }
+    }
+    /// The text under a green node.
+    pub fn green_text(db: &dyn Database, id: GreenId<'_>, out: &mut String) {
+        match &id.long(db).details {
+            GreenNodeDetails::Token(t) => out.push_str(t.long(db)),
+            GreenNodeDetails::Node { children, .. } => {
+                children.iter().for_each(|c| green_text(db, *c, out))
+            }
+        }
+    }
+}
